@@ -36,6 +36,7 @@ class Deadline(BaseException):
     """the obligation's wall budget is used up (raised at a safe point: a branch)"""
 
 
+FORMAT_MODE = ["opaque"]   # "opaque": format(shadow) == "<sym>"; "concretize": fork over the values
 DEADLINE = [None]   # absolute time.time() after which branch()/concretize() raise Deadline
 
 
@@ -258,6 +259,8 @@ class ForkEngine(Engine):
             return True
         if z3.is_false(cond):
             return False
+        if DEADLINE[0] is not None and time.time() > DEADLINE[0]:
+            raise Deadline()
         t = self._check(cond)
         f = self._check(z3.Not(cond))
         if t and f:
@@ -592,9 +595,15 @@ class SInt(int):
         return o // s, o % s
 
     def __truediv__(s, o):
-        raise Unsupported("int / int on a symbolic int")
+        # true division leaves the integers: concretise (fork over the values; only reached at tiny widths)
+        if isinstance(o, SFloat):
+            raise Unsupported("symbolic int / symbolic float")
+        return s.concrete() / (o.concrete() if isinstance(o, SInt) else o)
 
-    __rtruediv__ = __truediv__
+    def __rtruediv__(s, o):
+        if isinstance(o, SFloat):
+            raise Unsupported("symbolic float / symbolic int")
+        return (o.concrete() if isinstance(o, SInt) else o) / s.concrete()
 
     def __pow__(s, o, mod=None):
         if isinstance(o, SInt):
@@ -671,6 +680,10 @@ class SInt(int):
     __str__ = __repr__
 
     def __format__(s, spec):
+        # strings built from a symbolic int feed hashes (StridedInterval.__hash__) -> exact container semantics need
+        # the concrete digits: fork over the values.  Harness-side printing uses the opaque mode.
+        if FORMAT_MODE[0] == "concretize":
+            return format(s.concrete(), spec)
         return "<sym>"
 
     def bit_length(s):
@@ -926,30 +939,33 @@ def explore(fn, max_paths=2000, max_seconds=None):
 
 
 def explore_fork(fn, finish, timeout_ms=30000, width=64, max_seconds=600):
-    """fork-mode exploration.  fn(): run under test; finish(path) -> picklable summary, executed in the leaf
-    process.  Returns (list of summaries, complete: bool)."""
-    import sys
+    """fork-mode exploration (no re-execution: at a two-sided branch the process forks, depth-first).
+    fn(): run under test; finish(path) -> picklable summary, executed in the leaf process.
+    Returns (list of summaries, complete: bool)."""
+    import select
+    import signal
 
     global ENG
     r, w = os.pipe()
     root = os.fork()
     if root == 0:
-        os.close(r)
-        eng = ForkEngine(w, timeout_ms)
-        eng.W = width
-        old = ENG
-        for m in list(sys.modules.values()):
-            try:
-                if getattr(m, "ENG", None) is old:
-                    m.ENG = eng
-            except Exception:  # noqa: BLE001
-                pass
-        ENG = eng
         code = 0
         try:
+            os.setpgid(0, 0)   # own process group: the whole exploration tree can be killed at once
+            os.close(r)
+            signal.alarm(0)
+            eng = ForkEngine(w, timeout_ms)
+            eng.W = width
+            ENG = eng
+            DEADLINE[0] = time.time() + max_seconds
             try:
                 res = ("ok", fn())
             except PathAbort:
+                os._exit(0)
+            except Deadline:
+                res = None
+                data = pickle.dumps({"deadline": True})
+                os.write(w, len(data).to_bytes(4, "little") + data)
                 os._exit(0)
             except SolverUnknown as e:
                 res = ("unknown", str(e))
@@ -957,12 +973,15 @@ def explore_fork(fn, finish, timeout_ms=30000, width=64, max_seconds=600):
                 res = ("unsupported", str(e))
             except Exception as e:  # noqa: BLE001
                 res = ("exc", e)
-            out = finish(Path(list(eng.pc), list(eng.obligations), res[0], res[1], [], eng.resources))
+            DEADLINE[0] = None
+            out = finish(Path(list(ENG.pc), list(ENG.obligations), res[0], res[1], [], ENG.resources))
             data = pickle.dumps(out)
             os.write(w, len(data).to_bytes(4, "little") + data)
         except BaseException as e:  # noqa: BLE001
             try:
-                data = pickle.dumps({"harness_error": repr(e)})
+                import traceback
+
+                data = pickle.dumps({"harness_error": "".join(traceback.format_exception(e))[-1500:]})
                 os.write(w, len(data).to_bytes(4, "little") + data)
             except BaseException:  # noqa: BLE001
                 code = 3
@@ -972,8 +991,6 @@ def explore_fork(fn, finish, timeout_ms=30000, width=64, max_seconds=600):
     buf = b""
     t0 = time.time()
     complete = True
-    import select
-
     while True:
         rl, _, _ = select.select([r], [], [], 1.0)
         if rl:
@@ -981,15 +998,15 @@ def explore_fork(fn, finish, timeout_ms=30000, width=64, max_seconds=600):
             if not chunk:
                 break
             buf += chunk
-        if time.time() - t0 > max_seconds:
+        if time.time() - t0 > max_seconds + 20:
             complete = False
             try:
-                os.killpg(os.getpgid(root), 0)
+                os.killpg(root, signal.SIGKILL)
             except Exception:  # noqa: BLE001
-                pass
-            import signal
-
-            os.kill(root, signal.SIGKILL)
+                try:
+                    os.kill(root, signal.SIGKILL)
+                except Exception:  # noqa: BLE001
+                    pass
             break
     os.close(r)
     try:
@@ -1002,7 +1019,11 @@ def explore_fork(fn, finish, timeout_ms=30000, width=64, max_seconds=600):
         n = int.from_bytes(buf[i : i + 4], "little")
         if i + 4 + n > len(buf):
             break
-        outs.append(pickle.loads(buf[i + 4 : i + 4 + n]))
+        o = pickle.loads(buf[i + 4 : i + 4 + n])
+        if isinstance(o, dict) and o.get("deadline"):
+            complete = False
+        else:
+            outs.append(o)
         i += 4 + n
     return outs, complete
 
